@@ -325,7 +325,7 @@ func hugeJobs(r *ev.Run) []job {
 	var jobs []job
 	for i := 0; i < n; i++ {
 		id := fmt.Sprintf("h%d;", i)
-		jobs = append(jobs, job{id: id, weight: 0, fn: func() { runHuge(r, id) }})
+		jobs = append(jobs, job{id: id, weight: 0, fn: func() { runHuge(r, id, i) }})
 	}
 	return jobs
 }
@@ -352,7 +352,7 @@ func hugeClass(off int64) string {
 	return "<2^31"
 }
 
-func runHuge(r *ev.Run, id string) {
+func runHuge(r *ev.Run, id string, hnum int) {
 	rng := r.Rand("huge/" + id)
 	g := &hgen{rng: rng, shapes: map[string]bool{}}
 	root := g.node(1+rng.Intn(3), true)
@@ -498,7 +498,7 @@ func runHuge(r *ev.Run, id string) {
 		if nviol >= 4 {
 			return
 		}
-		buf := make([]byte, q.n)
+		buf := dirtyBuf(int(q.n), int(q.off&0xff))
 		n, err := fr.ReadAt(buf, q.off)
 		r.Eval(1)
 		r.Count("sparse_tree_readat", 1)
@@ -522,6 +522,61 @@ func runHuge(r *ev.Run, id string) {
 		case err != nil && !((int64(n) < q.n || q.off+int64(n) == size) && (errors.Is(err, io.EOF) || errors.Is(err, io.ErrUnexpectedEOF))):
 			viol("readat-error/sparse-tree", op, "returned the right %d bytes but error %v", n, err)
 		}
+	}
+
+	// ---- many pages of a huge hole in ONE call, into buffers that hold non-zero bytes
+	// before the call (a reader must write the zeros it reports)
+	var hugeHoles []hseg
+	for _, s := range segs {
+		if s.kind == kHole && s.end-s.start > 1<<30 {
+			hugeHoles = append(hugeHoles, s)
+		}
+	}
+	for k, bs := range []int64{4097, 8192, 64 << 10, 1 << 20} {
+		if len(hugeHoles) == 0 || nviol >= 4 {
+			break
+		}
+		if bs == 1<<20 && !r.Thorough() && hnum%4 != 0 {
+			continue
+		}
+		s := hugeHoles[rng.Intn(len(hugeHoles))]
+		var off int64
+		how := ""
+		switch (k + hnum) % 4 {
+		case 0:
+			off, how = s.start, "starts-with-hole"
+		case 1:
+			off, how = s.start+1+rng.Int63n(s.end-s.start-bs-1), "inside-hole"
+		case 2:
+			off, how = max(0, s.start-1-rng.Int63n(60)), "runs-into-hole"
+		default:
+			off, how = s.end-(4097+rng.Int63n(bs-4096)), "leaves-hole-after>4Ki"
+		}
+		salt := rng.Intn(255)
+		buf := dirtyBuf(int(bs), salt)
+		n, err := fr.ReadAt(buf, off)
+		r.Eval(1)
+		r.Count("sparse_tree_readat_dirty", 1)
+		op := fmt.Sprintf("ReadAt(off=%d, len=%d) into a buffer filled with non-zero bytes", off, bs)
+		exp, ok := denote(off, bs)
+		if !ok {
+			return
+		}
+		r.Note("sparse_read", "readat-dirty:"+bufClass(int(bs)))
+		r.Note("sparse_read", "readat-dirty:"+how+"@"+hugeClass(off))
+		switch {
+		case n != len(exp) || !bytes.Equal(buf[:max(n, 0)], exp):
+			got := buf[:min(max(n, 0), len(buf))]
+			d := firstDiff(got, exp)
+			viol("readat/sparse-tree/"+shapeAt(off, bs), op, "returned %d bytes (err=%v), the schema denotes %d bytes; first difference at index %d of the read: got %s, want %s%s", n, err, len(exp), d, around(got, d), around(exp, d), unwritten(got, exp, salt))
+		case int64(n) < bs && err == nil:
+			viol("readat-error/short-without-error", op, "returned %d < %d bytes with a nil error", n, bs)
+		case err != nil && !((int64(n) < bs || off+int64(n) == size) && (errors.Is(err, io.EOF) || errors.Is(err, io.ErrUnexpectedEOF))):
+			viol("readat-error/sparse-tree", op, "returned the right %d bytes but error %v", n, err)
+		}
+	}
+	if nviol >= 4 {
+		return
 	}
 
 	// ---- Seek + Read beyond 2^32
@@ -559,7 +614,10 @@ func runHuge(r *ev.Run, id string) {
 		}
 		pos = target
 		l := 1 + rng.Int63n(100)
-		buf := make([]byte, l)
+		if step%8 == 3 {
+			l = []int64{4097, 8192, 64 << 10}[rng.Intn(3)] // many pages in one call
+		}
+		buf := dirtyBuf(int(l), step)
 		full := rng.Intn(2) == 0
 		var n int
 		if full {
@@ -584,6 +642,9 @@ func runHuge(r *ev.Run, id string) {
 			return
 		}
 		r.Note("sparse_read", "seek+read@"+hugeClass(pos))
+		if l > 4096 && n > 4096 && n <= len(exp) && bytes.Count(exp[:n], []byte{0}) > 4096 {
+			r.Note("sparse_read", "seek+read-dirty>4Ki")
+		}
 		avail := len(exp)
 		okN := n == avail || (!full && n >= 1 && n <= avail)
 		if !okN || !bytes.Equal(buf[:min(max(n, 0), avail)], exp[:min(max(n, 0), avail)]) {
